@@ -160,6 +160,12 @@ func hostileHandle(raw []byte) map[string]interface{} {
 			out["encode_globals"] = g
 		}
 	}
+	// a container that contains itself (directly or through other containers) among the globals - block variables included: what
+	// follows traverses every global, and the traversal of such a value is the recorded defect; say so before trying
+	if gl, _ := c.VerifGlobals(); globalsCyclic(gl) {
+		emit(map[string]interface{}{"note": pc.ID, "cyclic_globals": true})
+		flushOut()
+	}
 	// follow-ups
 	var names []string
 	out["getall"] = guarded(func() error {
@@ -248,4 +254,53 @@ func init() {
 	register("hostile", "run hostile programs through RunContext and keep using the Compiled object", func(args []string) error {
 		return runCases(30*time.Second, hostileHandle)
 	})
+}
+
+// globalsCyclic reports whether a container is reachable from itself (arrays, maps, their immutable forms, error payloads).
+func globalsCyclic(roots []tengo.Object) bool {
+	onPath := map[tengo.Object]bool{}
+	done := map[tengo.Object]bool{}
+	var visit func(o tengo.Object) bool
+	visit = func(o tengo.Object) bool {
+		var kids []tengo.Object
+		switch x := o.(type) {
+		case *tengo.Array:
+			kids = x.Value
+		case *tengo.ImmutableArray:
+			kids = x.Value
+		case *tengo.Map:
+			for _, v := range x.Value {
+				kids = append(kids, v)
+			}
+		case *tengo.ImmutableMap:
+			for _, v := range x.Value {
+				kids = append(kids, v)
+			}
+		case *tengo.Error:
+			kids = []tengo.Object{x.Value}
+		default:
+			return false
+		}
+		if onPath[o] {
+			return true
+		}
+		if done[o] {
+			return false
+		}
+		onPath[o] = true
+		for _, k := range kids {
+			if k != nil && visit(k) {
+				return true
+			}
+		}
+		onPath[o] = false
+		done[o] = true
+		return false
+	}
+	for _, r := range roots {
+		if r != nil && visit(r) {
+			return true
+		}
+	}
+	return false
 }
